@@ -6,6 +6,7 @@ import (
 	"go/token"
 	"go/types"
 	"golang.org/x/tools/go/types/typeutil"
+	"math/big"
 	"sort"
 	"strings"
 
@@ -186,6 +187,10 @@ func checkC08(c *Ctx) {
 			c.c11DeleteExpired(b) // cleanup acts on a key only when its entry has an expiry before the boundary
 		}
 	}, func(o *coreObl) (string, bool) { return "R08.7", o.Rule == "R11.1" || o.Rule == "R11.2" })
+	// … with the documented DeleteExpiredAfter (24 h exactly when 0): a completed Write stays readable (as stale) that long
+	c.borrow("C11", func() {
+		c.defaultsRule("R11.1", map[string]*big.Rat{"DeleteExpiredAfter": big.NewRat(24*3600*1000000000, 1)})
+	}, func(o *coreObl) (string, bool) { return "R08.7", o.Rule == "R11.1" })
 	// "Walk visits every existing entry exactly once": every iterated entry is handed to the callback and counted once (C13 R13.3 on
 	// the Walk methods = C07 R07.7) — a Walk that filters (expired, overdue) leaves out entries Read still returns
 	for _, b := range backends {
